@@ -189,10 +189,10 @@ def build() -> Check:
         has_arg = bool(c.args or c.keywords)
         if not has_arg:
             n_plain += 1
-            ok = all(g.dominates(a_.idx, nd.idx) for a_ in api[:1]) and any(g.dominates(f.idx, nd.idx) for f in fetch) \
-                and all(g.dominates(api[0].idx, f.idx) for f in fetch)
+            ok = all(g.dominates(a_.idx, nd.idx) for a_ in api[:1]) and all(g.dominates(api[0].idx, f.idx) for f in fetch) \
+                and not any(g.reachable(nd.idx, f.idx, avoiding={x.idx for x in g.nodes if x.label == "while"}) for f in fetch)
             ck.ob("R3.set-after-api-and-merge", fn_construct(cbf), ok,
-                  "a success completion_event.set() is not dominated by the API call and the merge of its response", where=g.loc(nd))
+                  "a success completion_event.set() is not dominated by the API call, or the merge of the response can still follow it", where=g.loc(nd))
         else:
             ck.ob("R3.handler-set-carries-error", fn_construct(cbf), True, "", where=g.loc(nd))
     ck.floor("consumer_success_sets", n_plain, 1)
@@ -215,8 +215,15 @@ def build() -> Check:
     if isinstance(apistmt, (ast.Assign, ast.AnnAssign)):
         tg = apistmt.targets[0] if isinstance(apistmt, ast.Assign) else apistmt.target
         outvar = tg.id if isinstance(tg, ast.Name) else None
-    merged_ok = outvar is not None and all(outvar in ast.unparse(a_) for a_ in fcall.args[:1]) and \
-        any("new_execution_state.operations" in ast.unparse(a_) for a_ in fcall.args)
+    # local aliases of the response (new_state = output.new_execution_state)
+    aliases = {outvar} if outvar else set()
+    for st_ in ast.walk(cbf.node):
+        if isinstance(st_, (ast.Assign, ast.AnnAssign)) and st_.value is not None:
+            tg_ = st_.target if isinstance(st_, ast.AnnAssign) else st_.targets[0]
+            if isinstance(tg_, ast.Name) and outvar and any(isinstance(n_, ast.Name) and n_.id == outvar for n_ in ast.walk(st_.value)):
+                aliases.add(tg_.id)
+    argtxt = [ast.unparse(a_) for a_ in list(fcall.args) + [k_.value for k_ in fcall.keywords]]
+    merged_ok = outvar is not None and argtxt and any(n_ in argtxt[0] for n_ in aliases) and any(t_.endswith(".operations") for t_ in argtxt)
     ck.ob("R3.merge-uses-response", fn_construct(cbf), merged_ok, f"fetch_paginated_operations({', '.join(ast.unparse(a_) for a_ in fcall.args)})")
 
     # the same through interpretation of the consumer (covers helpers the handler delegates to)
@@ -233,8 +240,11 @@ def build() -> Check:
                 nxt = [x for x in t.events[i + 1:] if x.kind in ("API", "COLLECT")]
                 seg = t.events[i + 1: t.events.index(nxt[0])] if nxt else t.events[i + 1:]
                 f_ = [x for x in seg if x.kind == "FETCH"]
+                out_k = f"output#{e.data['n']}"
+                nothing_to_merge = any(out_k in k and k.endswith("operations)") and v is False for k, v in t.pc) and \
+                    any(out_k in k and "next_marker" in k and v is False for k, v in t.pc)
                 for s_ in seg:
-                    if s_.kind == "EV_SET" and (not f_ or seg.index(f_[0]) > seg.index(s_)):
+                    if s_.kind == "EV_SET" and (not f_ or seg.index(f_[0]) > seg.index(s_)) and not (nothing_to_merge and not f_):
                         bad_c.append((f"{s_.data['ev']} is released before the response was merged", t))
     ck.ob("R3.release-reflects-api-outcome", fn_construct(cbf), not bad_c, bad_c[0][0] if bad_c else "")
 
